@@ -154,8 +154,8 @@ func runC07(r *Run) {
 	get := "common/db.(*ldbManager).Get"
 	r.Alias("$raw", "phi(db.newMemDBInternal()|recv.l1Cache.Get(a0)#0.(*db.rollbackCache).raw|recv.l2Cache.Get(a0)#0.(*db.rollbackCache).raw)")
 	r.Has(get, "db.enableDelete(db.newMergedDb(list(db.newMemDBInternal(),db.newSkipDelete(db.newMergedDb(list($raw,db.newSubDB(db.frontierByte,db.newLevelDBSnapshotWrapper(recv.ldb.GetSnapshot()#0))))))))", "a historical view = fresh private layer over (undo overlay over the frontier snapshot)")
-	r.Has(get, "db.ApplyWithoutOverride($raw,recv.getRollback(iter))", "the overlay is extended with the undo record of each later height, oldest first, never overriding what an earlier (closer) undo recorded")
-	r.Branch(get, "le(iter,$front.Height)", "undo records are applied up to the frontier")
+	r.HasPrefix(get, "db.ApplyWithoutOverride($raw,recv.getRollback(iter(", "the overlay is extended with the undo record of each later height, oldest first, never overriding what an earlier (closer) undo recorded")
+	r.Branch(get, "le(iter((phi(a0|recv.l1Cache.Get(a0)#0.(*db.rollbackCache).frontier|recv.l2Cache.Get(a0)#0.(*db.rollbackCache).frontier).Height+1)),$front.Height)", "undo records are applied up to the frontier")
 	r.Branch(get, "ne(a0,db.GetIdentifierByHash(db.NewLevelDBSnapshotWrapper(recv.ldb.GetSnapshot()#0).Subset(db.frontierByte),a0.Hash)#0)", "an identifier that is not on this chain (same hash, other height) has no view")
 	r.Branch(get, "eq(a0,$front)", "the frontier itself needs no overlay")
 	r.Has(get, "store new(db.rollbackCache).frontier = $front", "a cached overlay records the frontier it was built up to")
